@@ -83,4 +83,16 @@ theorem natToLe_eq_leBytes (n x : Nat) : natToLe n x = Model.Codec.leBytes n x :
   | zero => rfl
   | succ n ih => simp only [natToLe, Model.Codec.leBytes, ih]
 
+theorem ell_pos : 0 < ell := by decide
+
+/-- every scalar the driver reads is a canonical representative, whatever 64 (or any number of) hex characters were sent -/
+theorem scalarOfHex_canonical (s : String) (x : Fl) (h : scalarOfHex s = some x) : x.v < ell := by
+  unfold scalarOfHex at h
+  cases hb : hexToBytes s with
+  | none => simp [hb] at h
+  | some bs =>
+    simp only [hb, Option.bind_eq_bind, Option.bind_some, Option.pure_def, Option.some.injEq] at h
+    subst h
+    exact Nat.mod_lt _ ell_pos
+
 end Bpp.WireThm
